@@ -7,7 +7,11 @@ cd $wt || exit 2
 git checkout -q -- src
 timeout 300 sh $out/run.sh > $out/confirm_demo_clean.log 2>&1; rc_clean=$?
 git apply $out/patch.diff || { echo "$id: patch does not apply"; exit 3; }
+# the existing suite only: keep the demonstration out of the way
+mkdir -p $wt/.demo_aside; for f in tests/seeded_demo.rs examples/seeded_demo.rs; do [ -f $f ] && mv $f $wt/.demo_aside/$(echo $f | tr / _); done
 timeout 600 cargo test --workspace --no-fail-fast --offline > $out/confirm_suite.log 2>&1
+[ -f $wt/.demo_aside/tests_seeded_demo.rs ] && mv $wt/.demo_aside/tests_seeded_demo.rs tests/seeded_demo.rs
+[ -f $wt/.demo_aside/examples_seeded_demo.rs ] && mv $wt/.demo_aside/examples_seeded_demo.rs examples/seeded_demo.rs
 # the demo itself may live in tests/: count only the pre-existing 73
 npass=$(grep -E "^test .* ok$" $out/confirm_suite.log | grep -v seeded | wc -l)
 nfail=$(grep -E "^test .* FAILED$" $out/confirm_suite.log | grep -v -i seeded | wc -l)
